@@ -793,6 +793,17 @@ def zeros(shape, dtype=None):
     return SArr(Buf([z] * n), shape, dtype=dt)
 
 
+def empty(shape, dtype=None):
+    """uninitialised memory: arbitrary values (fresh symbols), so that code reading a slot it never wrote
+    shows up as a dependence on garbage"""
+    a = zeros(shape, dtype)
+    if core.active() and a.dtype == "f":
+        eng = engine()
+        for i in a._indices():
+            a.buf.data[a._flat_index(i)] = eng.real(eng.fresh("uninit"))
+    return a
+
+
 def ones(shape, dtype=None):
     a = zeros(shape, dtype)
     a.fill(1 if a.dtype == "i" else 1.0)
